@@ -22,7 +22,8 @@ EXPLANATION = (
     "several members read only through sorted(...) (an unordered set of axes: ExpandDims.axes today, discovered on every run) is never "
     "consumed in its given order by another member - chunks, _layer, _meta and the rewrites must enumerate the axes alike; R03.7 the grid "
     "contract that lets a rewrite change an interior node's block structure only when nobody above observes it is transitive (a consumer "
-    "holding a per-block literal is protected at any distance, not only as a direct dependent). Per-operation chunk formulas, dtype inference "
+    "holding a per-block literal is protected at any distance, not only as a direct dependent); R03.8 a _simplify_down rewrite, which "
+    "cannot see consumers at all, hands back a replacement only under a chunks-equality guard or at a reviewed site. Per-operation chunk formulas, dtype inference "
     "and the sizes of computed blocks are arithmetic/values and are not decided."
 )
 ASSUMPTIONS = [
@@ -438,7 +439,59 @@ def r03_7(ctx):
     return rr
 
 
-RULES = [r03_1, r03_2, r03_3, r03_4, r03_5, r03_6, r03_7]
+# _simplify_down rewrites cannot see who consumes the node they replace: (class, what is returned) -> why the replacement
+# advertises the same block grid.  Reviewed by reading; anything not listed must carry a chunks-equality guard.
+SIMPLIFY_DOWN_REVIEWED = {
+    ("MapOverlap", "self._native_moving_window"): "MapOverlap.chunks returns the replacement's own chunks whenever the replacement exists (`if self._native_moving_window is not None: return self._native_moving_window.chunks`); probed with bottleneck.move_sum over 15 chunk/window combinations under repeat / .blocks / map_blocks(chunks=) consumers",
+    ("FromDelayed", "FromMap"): "the FromMap is built with chunks=self.chunks verbatim",
+    ("ExpandDims", "FromMap"): "the chunks handed to FromMap are the child's with (1,) inserted at the sorted axes - the construction ExpandDims.chunks itself uses (order agreement: R03.6)",
+    ("Transpose", "Transpose"): "Transpose(Transpose(x)) -> one Transpose with the composed permutation: the same source chunks permuted the same way",
+    ("Transpose", "self.array"): "identity permutation: the operand itself",
+    ("Transpose", "self._pushdown_through_elemwise"): "every operand is transposed and the same Elemwise rebuilt; unification works per axis label, so the unified layout of the transposed operands is the transposed unified layout (probed over 75 chunk / policy combinations under grid consumers)",
+    ("SliceSlicesIntegers", "self.array"): "identity slice (every axis a full slice): the operand itself",
+    ("Concatenate", "_merge_from_maps"): "merges FromMap pieces into one FromMap whose block grid is the pieces' grids laid side by side along the axis - what Concatenate.chunks advertises for them",
+    ("Stack", "_merge_from_maps"): "as for Concatenate, with the new axis of one block per piece that Stack.chunks advertises",
+}
+
+
+def r03_8(ctx):
+    rr = RuleResult(
+        "R03.8", "GUARD",
+        "a _simplify_down rewrite (which cannot see the node's consumers) hands back a replacement only under a condition that compares its chunks with the chunks the node advertises, or at a reviewed site where the grids agree by construction",
+        min_instances=8,
+    )
+    from .common import chain_conjuncts
+
+    repo = ctx.repo
+    for c in repo.expr_classes():
+        f = c.methods.get("_simplify_down")
+        if f is None or not c.module.is_unit:
+            continue
+        cfg = cfg_of(ctx, f)
+        for r in cfg.returns:
+            v = r.value
+            if v is None or (isinstance(v, ast.Constant) and v.value is None):
+                continue
+            what = unparse(v.func) if isinstance(v, ast.Call) else unparse(v)
+            cst = f"{c.construct}::_simplify_down::return {what}"
+            conj = chain_conjuncts(cfg, r, f.node, f.module)
+            guarded = any("chunks" in x and ("==" in x or "_same_grid(" in x or "_chunks_match(" in x) and "self.chunks" in x.replace(" ", "") or ("chunks" in x and "self.array.chunks" in x and "==" in x) for x in conj)
+            rr.inst(cst, chunks_guard=guarded, reviewed=(c.name, what) in SIMPLIFY_DOWN_REVIEWED)
+            if guarded:
+                continue
+            if (c.name, what) in SIMPLIFY_DOWN_REVIEWED:
+                rr.exempt(cst, SIMPLIFY_DOWN_REVIEWED[(c.name, what)])
+                continue
+            ctx.finding(
+                rr, cst,
+                f"{c.name}._simplify_down returns {what} without checking that it advertises the chunks the node advertised: the rewrite cannot see its consumers, so one holding a per-block literal "
+                "(map_blocks(chunks=...), repeat, .blocks) is handed another block grid (e.g. two fused strided slices keep a block the outer slice dropped) and raises while the program is optimized",
+                func=f, node=r,
+            )
+    return rr
+
+
+RULES = [r03_1, r03_2, r03_3, r03_4, r03_5, r03_6, r03_7, r03_8]
 
 LEVEL_TEXT = (
     "Static decision of the layout-barrier clause of C03 ('even when optimization internally chose a different block "
